@@ -158,6 +158,10 @@ def gen_plan(rng, tier, idx, opts):
                 i, j = rng.sample(range(len(live)), 2)       # non-adjacent merge (sums commute)
                 ops.append({"op": "merge", "dst": live[i], "src": live[j]})
                 retired.append(live.pop(j))
+            if tname != "MISC" and retired and live and rng.random() < 0.05:
+                # an operand that was merged before is merged AGAIN (it must not have been changed by the first merge,
+                # so this is the same as merging an equal copy: its observations are counted once more)
+                ops.append({"op": "merge", "dst": rng.choice(live), "src": rng.choice(retired), "again": True})
             if tname != "MISC" and rng.random() < 0.05 and next_acc < 8:
                 ops.append({"op": "new_empty", "acc": next_acc})   # an accumulator that never saw anything
                 if live and rng.random() < 0.7:
@@ -306,6 +310,8 @@ def _exec_result(plan, res, log, pid, mode):
                     empty_dst = True
                 objs[op["dst"]].merge(objs[op["src"]])
                 model[op["dst"]] = model[op["dst"]] + model[op["src"]]
+                if op.get("again"):
+                    bump(res["probes"], "operand_merged_a_second_time")
                 dst = op["dst"]
                 merges += 1
             else:
